@@ -45,7 +45,9 @@ pub fn tok_to_hundredths(t: &str) -> Option<i64> {
     Some(if neg { -v } else { v })
 }
 
-const RENUMBER_POOL: [i32; 16] = [0, 1, 2, 3, 4, 5, 6, 7, -1, -2, -3, -4, 40000, 99, i32::MAX, i32::MIN];
+const RENUMBER_POOL: [i32; 22] = [
+    0, 1, 2, 3, 4, 5, 6, 7, -1, -2, -3, -4, 40000, 99, i32::MAX, i32::MIN, 16_777_216, 16_777_217, 20_000_000, 20_000_001, i32::MAX - 1, i32::MIN + 1,
+];
 
 pub fn apply(b: &Building, ops: &[RewriteOp]) -> Building {
     let mut b = b.clone();
